@@ -25,7 +25,7 @@ UNPROVED = ['cw_rankedpairs (rankedPairs sc v 1 = ok [w]): FALSE as stated on th
             '(minimax_never_loser_witness); proved instead: minimax_worst_counterscore (maximum over the pairs present)',
             'rankedpairs no_candidate_dropped: FALSE (rankedpairs_dropped_witness)',
             'copeland second-order defining computation (only the first-order scores are characterised: copeland_defining)']
-REQUIRED_COUNTERS = ['has_cw', 'sparse_never_loser', 'all_tied', 'cycle', 'from_ranked', 'uab_true', 'uab_false',
+REQUIRED_COUNTERS = ['converter', 'has_cw', 'sparse_never_loser', 'all_tied', 'cycle', 'from_ranked', 'uab_true', 'uab_false',
                      'n_all', 'n_one', 'hybrid', 'second_order_used', 'fraction', 'missing_pair']
 RULE = ('pairwise dictionaries over 2-5 candidates (6 occasionally) as in C06 (sparse / dense / tied / zero-count entries, '
         'int and Fraction counts, shuffled insertion order) and dictionaries derived with the real RankedToCondorcetVotes '
@@ -118,6 +118,7 @@ def _gen(rng, tier):
                     yield from _pairwise_cases(rng, votes, ['from_ranked', 'uab_true' if uab else 'uab_false'])
             yield _mk_hybrid('benham', prof, ['from_ranked'])
             yield _mk_hybrid('tideman', prof, ['from_ranked'])
+            yield {'op': 'to_condorcet', 'profile': prof, '_tags': ['from_ranked', 'converter']}
     if tier == 'thorough':
         for m in (2, 3, 4):
             for votes in CC.exhaustive_pairwise(m, CC.PAIR_STATES):
@@ -174,6 +175,10 @@ def impl(case):
         ev = vc.EVALUATORS[case['name']]
         return guarded(lambda: enc_selection(ev.evaluate(votes, case['n']), NAMES))
     prof = CC.profile_dict(case['profile'])
+    if case['op'] == 'to_condorcet':
+        import votelib.convert
+        return guarded(lambda: sorted([NAMES.i(a), NAMES.i(b), num_str(c)] for (a, b), c in
+                                      votelib.convert.RankedToCondorcetVotes().convert(prof).items()))
     if case['op'] == 'benham':
         return guarded(lambda: enc_selection(vs.Benham().evaluate(prof, 1), NAMES))
     if case['op'] == 'tideman':
@@ -275,6 +280,8 @@ def _listed(obs):
 
 def oracle(case, obs):
     out = []
+    if case['op'] == 'to_condorcet':      # correspondence only: ties the converter model used by the hybrids to the code
+        return [('raises:' + obs['err'], 'converter')] if isinstance(obs, dict) else []
     hybrid = case['op'] != 'eval'
     if hybrid:
         d = _hybrid_pairwise(case)
@@ -412,6 +419,8 @@ def compare(case, iobs, mobs):
         if runs(io) != runs(res):
             return f'impl={io} model={res} groups={grp}'
         return None
+    if case['op'] == 'to_condorcet' and isinstance(mobs, list):
+        mobs = sorted(mobs)
     if canon(iobs) != canon(mobs):
         return f'impl={json.dumps(canon(iobs))} model={json.dumps(canon(mobs))}'
     return None
@@ -456,6 +465,8 @@ def shrink_candidates(case):
 def describe(case):
     if case['op'] == 'eval':
         return f"votelib.evaluate.condorcet.EVALUATORS[{case['name']!r}].evaluate({CC.votes_dict(case)!r}, {case['n']})"
+    if case['op'] == 'to_condorcet':
+        return f"votelib.convert.RankedToCondorcetVotes().convert({CC.profile_dict(case['profile'])!r})"
     cls = 'Benham' if case['op'] == 'benham' else 'TidemanAlternative'
     return f"votelib.evaluate.sequential.{cls}().evaluate({CC.profile_dict(case['profile'])!r}, 1)"
 
